@@ -98,6 +98,14 @@ CLAIMED = {
          'standard bytes for every 20/32-byte hash; script-hash commitments are RIPEMD160(SHA256(bytes)) / SHA256(bytes) of the exact script '
          'encoding (uses the RIPEMD-160 theorem of C20); helper output = locking script of the address from the same script. Model tied to the '
          'code by the correspondence run.', NOTE_COMMON + 'SHA-256 parameter.', 'Lean 4 proof (hand model + generated tables) + differential correspondence', '6/C12'),
+ 'C19': ('Kernel-checked theorems about the wrapper over a parameter model {root, current} of the third-party hdwallet object: after any sequence '
+         'of from_path calls the key is the BIP32 private child derivation of the ROOT along the last path (the reset cannot be lost), construction '
+         'from mnemonic / extended key holds the BIP39-seed master / the given key chain, on every generated network the WIF prefix used for the '
+         'hand-over is the one PrivateKey expects, and the key handed back is exactly the derived key (via the WIF round trip of C09). That the real '
+         'library behaves like the parameter model and like BIP32/BIP39 (HMAC-SHA512 chain, PBKDF2 seed) is translation-validated each run against '
+         'a full Lean BIP32/BIP39 and by driving the library with and without clean_derivation.',
+         NOTE_COMMON + 'third-party hdwallet derivation itself: correspondence only (partial); HMAC-SHA512/PBKDF2 parameters.',
+         'Lean 4 proof (wrapper over parameter model) + differential correspondence against a Lean BIP32/BIP39', '6/C19'),
 }
 REASONS_PENDING = 'check under construction in this session (DESIGN.md section 9 build order); will be claimed once its Lean theorems are proved and its correspondence run exists'
 
